@@ -139,6 +139,10 @@ class BridgeRun:
         self.got: list[dict] = []
         self.raise_next = False
         self.warn_n = 0
+        self.burst: dict | None = None   # tag -> {"got": [...], "raise": bool}; deliveries attributed by the device id
+        self.order: list[tuple[int, int]] = []
+        self.ntag = 0
+        self.after_stop = False
 
     def log(self, **e):
         self.ev.append(e)
@@ -148,8 +152,19 @@ class BridgeRun:
             g = device_fields(dev)
         except Exception as x:  # noqa: BLE001
             g = {"cls": "unreadable:" + type(x).__name__}
+        if self.burst is not None:
+            tag = int(dev.device_id, 16) if isinstance(getattr(dev, "device_id", None), str) and len(dev.device_id) == 6 else -1
+            item = self.burst.get(tag)
+            if item is None or self.after_stop:
+                self.strays.append({"ev": "Stray", "dev": g, "after_stop": self.after_stop})
+            else:
+                item["got"].append(g)
+                self.order.append((item["p"], tag))
+            if item is not None and item["raise"]:
+                raise CallbackBoom("user callback failed")
+            return
         if self.cur is None:
-            self.log(ev="Stray", dev=g)
+            self.log(ev="Stray", dev=g, after_stop=False)
         else:
             self.got.append(g)
         if self.raise_next:
@@ -230,6 +245,48 @@ class BridgeRun:
             elif do == "free":
                 self.net.occupied.discard(st["p"])
                 self.log(ev="Free", p=st["p"])
+            elif do == "burst":
+                # several datagrams handed to the sockets back to back, then `yields` loop cycles, then (optionally) stop()
+                self.burst = {}
+                self.strays = []
+                self.order = []
+                self.after_stop = False
+                sent = []
+                for it in st["items"]:
+                    d = it["d"]
+                    self.ntag += 1
+                    tag = self.ntag
+                    if d.get("t") == "bc":
+                        d = dict(d, id=[(tag >> 16) & 255, (tag >> 8) & 255, tag & 255])
+                    elif d.get("t") == "mutate" and d["of"].get("t") == "bc":
+                        d = dict(d, of=dict(d["of"], id=[(tag >> 16) & 255, (tag >> 8) & 255, tag & 255]))
+                    data = make_datagram(d)
+                    self.burst[tag] = {"got": [], "raise": bool(it.get("cbraise")), "p": it["p"]}
+                    handed = self.net.send_udp(self.loop, it["p"], data)
+                    sent.append((tag, it, data, handed))
+                await vnet.settle(st.get("yields", 3))
+                stopped = False
+                if st.get("then") == "stop":
+                    await bridge.stop()
+                    stopped = True
+                    self.after_stop = True
+                await vnet.settle(4)
+                for tag, it, data, handed in sent:
+                    self.log(ev="Dgram", p=it["p"], b=list(data), handed=bool(handed), cbraise=bool(it.get("cbraise")),
+                             delivered=self.burst[tag]["got"], warns=0, logs=0, excs=[], burst=True, cut=stopped)
+                for p in sorted({it["p"] for _, it, _, _ in sent}):
+                    self.log(ev="Order", p=p, seqs=[t for (q, t) in self.order if q == p])
+                self.burst = None
+                self.after_stop = False
+                for x in self.strays:
+                    if not x["after_stop"]:
+                        self.ev.append(x)
+                if stopped:
+                    self.log(ev="Stop", how="stop", raised=False)
+                for x in self.strays:
+                    if x["after_stop"]:
+                        self.ev.append(x)
+                self.log(ev="Cycle")
             elif do == "dgram":
                 data = make_datagram(st["d"])
                 w0, l0, x0 = self.warn_n, self.logh.n, len(self.loop.exceptions)
@@ -245,7 +302,7 @@ class BridgeRun:
                     ex = c.get("exception")
                     excs.append(type(ex).__name__ if ex is not None else "context:" + str(c.get("message"))[:40])
                 self.log(ev="Dgram", p=st["p"], b=list(data), handed=bool(handed), cbraise=bool(st.get("cbraise")),
-                         delivered=self.got, warns=self.warn_n - w0, logs=self.logh.n - l0, excs=excs)
+                         delivered=self.got, warns=self.warn_n - w0, logs=self.logh.n - l0, excs=excs, burst=False, cut=False)
                 self.log(ev="Cycle")       # processing a datagram lets the loop cycle
                 continue
             self.obs(bridge, allports)
